@@ -12,19 +12,19 @@ namespace RRule
 inductive Family where
   | daily | weekly | yearlyMonthly | monthlyNth | yearlyNth | yearlyBymonthNth | yearlyEaster | yearlyWeekno
   | monthlyWeekno
-  | hourly | hourlyByhour | minutely | minutelyByminute | secondly
+  | hourly | hourlyByhour | minutely | minutelyByminute | minutelyByhour | secondly
   deriving Repr, DecidableEq, Inhabited
 
 def Family.name : Family → String
   | .daily => "daily" | .weekly => "weekly" | .yearlyMonthly => "yearly_monthly" | .monthlyNth => "monthly_nth"
   | .yearlyNth => "yearly_nth" | .yearlyBymonthNth => "yearly_bymonth_nth" | .yearlyEaster => "yearly_easter"
   | .yearlyWeekno => "yearly_weekno" | .monthlyWeekno => "monthly_weekno" | .hourly => "hourly" | .hourlyByhour => "hourly_byhour"
-  | .minutely => "minutely" | .minutelyByminute => "minutely_byminute" | .secondly => "secondly"
+  | .minutely => "minutely" | .minutelyByminute => "minutely_byminute" | .minutelyByhour => "minutely_byhour" | .secondly => "secondly"
 
 def Family.all : List Family :=
   [.daily, .weekly, .yearlyMonthly, .monthlyNth, .yearlyNth, .yearlyBymonthNth, .yearlyEaster, .yearlyWeekno,
    .monthlyWeekno,
-   .hourly, .hourlyByhour, .minutely, .minutelyByminute, .secondly]
+   .hourly, .hourlyByhour, .minutely, .minutelyByminute, .minutelyByhour, .secondly]
 
 /-- the optional list is given, non-empty, and satisfies `P` -/
 def someWith {α} (o : Option (List α)) (P : List α → Prop) : Prop :=
@@ -70,6 +70,14 @@ def wArgOk (a : Args) : Prop :=
   a.byweekno = none ∨ (someWith a.byweekno wnoOk ∧ 0 ≤ a.wkst.getD 0 ∧ a.wkst.getD 0 ≤ 6)
 instance (a : Args) : Decidable (wArgOk a) := by unfold wArgOk; exact inferInstance
 
+/-- MINUTELY with BYHOUR: some minute of the grid (orbit of the start under `+INTERVAL`, which repeats after at most
+    1440 steps) falls in a listed hour — what a `__construct_byset`-style search over the grid would find.  On the
+    complement the rule is empty and `_iter` raises ValueError at the first `next()` (D-C01g). -/
+def reachableHourM (a : Args) : Prop :=
+  (List.range 1440).any (fun j =>
+    (a.byhour.getD []).contains ((a.dtstart.hh * 60 + a.dtstart.mm + (j : Int) * a.interval) / 60 % 24)) = true
+instance (a : Args) : Decidable (reachableHourM a) := by unfold reachableHourM; exact inferInstance
+
 /-- **the families with an exactness theorem** -/
 def SupportedBy (a : Args) : Family → Prop
   | .daily => a.freq = 3 ∧ baseOk a ∧ wArgOk a ∧ a.byeaster = none
@@ -95,6 +103,8 @@ def SupportedBy (a : Args) : Family → Prop
       a.byminute = none ∧ secondsOk a
   | .minutelyByminute => a.freq = 5 ∧ baseOk a ∧ wArgOk a ∧ a.byeaster = none ∧ a.byhour = none ∧
       someWith a.byminute (fun l => ∀ x ∈ l, 0 ≤ x ∧ x ≤ 59) ∧ secondsOk a
+  | .minutelyByhour => a.freq = 5 ∧ baseOk a ∧ wArgOk a ∧ a.byeaster = none ∧
+      someWith a.byhour (fun _ => True) ∧ a.byminute = none ∧ secondsOk a ∧ reachableHourM a
   | .secondly => a.freq = 6 ∧ baseOk a ∧ wArgOk a ∧ a.byeaster = none ∧ a.byhour = none ∧
       a.byminute = none ∧ a.bysecond = none
 
@@ -109,7 +119,7 @@ def Supported (a : Args) : Prop := ∃ f, SupportedBy a f
 
 /-- how many periods of the specification `n` turns of the generator's loop may correspond to -/
 def Family.periodsPerTurn : Family → Nat
-  | .hourly => 24 | .hourlyByhour => 48 | .minutely => 1440 | .minutelyByminute => 1500 | .secondly => 86400 | _ => 1
+  | .hourly => 24 | .hourlyByhour => 48 | .minutely => 1440 | .minutelyByminute => 1500 | .minutelyByhour => 2880 | .secondly => 86400 | _ => 1
 
 /-- the first `n` turns stay inside datetime's range (for BYEASTER: inside 1583..4099) -/
 def inRange (a : Args) (f : Family) (n : Nat) : Prop :=
@@ -128,6 +138,9 @@ def inRange (a : Args) (f : Family) (n : Nat) : Prop :=
       (Cal.maxOrdinal + 1) * 1440
   | .minutelyByminute =>
       (Spec.RRule.startOrd a * 24 + a.dtstart.hh) * 60 + a.dtstart.mm + (1500 * n + 60) * a.interval + 1439 <
+      (Cal.maxOrdinal + 1) * 1440
+  | .minutelyByhour =>
+      (Spec.RRule.startOrd a * 24 + a.dtstart.hh) * 60 + a.dtstart.mm + (2880 * n + 1440) * a.interval + 1439 <
       (Cal.maxOrdinal + 1) * 1440
   | .secondly => ((Spec.RRule.startOrd a * 24 + a.dtstart.hh) * 60 + a.dtstart.mm) * 60 + a.dtstart.ss +
       (86400 * n + 1) * a.interval + 86399 < (Cal.maxOrdinal + 1) * 86400
